@@ -35,7 +35,7 @@ ParamClasses == {<<0, 0>>, <<1, 0>>, <<1, -1>>, <<1, -2>>, <<3, -2>>, <<1, -10>>
                  <<3, -1>>, <<2, 0>>, <<11, 0>>, <<16385, 0>>}
 ArgClasses == {<<0, 0>>, <<1, -40>>, <<1, -1>>, <<1, 0>>, <<3, -1>>, <<201, -7>>, <<13176794, -23>>, <<13176795, -23>>,
                <<2, 0>>, <<25, -3>>, <<201, -6>>, <<5, 0>>, <<10, 0>>, <<100, 0>>}
-ArgFew == {<<1, -40>>, <<1, 0>>, <<13176794, -23>>, <<13176795, -23>>, <<25, -3>>, <<10, 0>>}
+ArgFew == {<<0, 0>>, <<1, -40>>, <<1, 0>>, <<13176794, -23>>, <<13176795, -23>>, <<25, -3>>, <<10, 0>>}
 CarlsonArgs == {<<0, 0>>, <<1, -300>>, <<1, -20>>, <<1, -2>>, <<1, 0>>, <<3, 0>>, <<1, 2>>, <<1, 20>>, <<1, 300>>}
 CarlsonFew == {<<0, 0>>, <<1, -20>>, <<1, 0>>, <<3, 0>>, <<1, 20>>}
 
@@ -72,8 +72,15 @@ K1(r) == r.kp2e = -9999       \* k2 = 1
 A1(r) == r.ap2e = -9999       \* alpha2 = 1
 A0(r) == r.a2s = 0
 
+\* Every documented way of setting the parameters (cm: 0 four-argument constructor, 1 two-argument constructor, 2 default
+\* constructor + Reset(k2, alpha2), 3 four-argument Reset of a used object) yields an object whose inspectors k2(), kp2(),
+\* alpha2(), alphap2() are the requested parameters (pin / insp: sign and exponent of k2 and alpha2, exact limbs of the
+\* complements; ieq: all four bit patterns agree) - and all the laws below hold for each of them.
+InspOK(r) == r.cm \in 0..3 /\ r.insp = r.pin /\ r.ieq
+
 \* complete integrals: r = <<K, E, D, Pi, G, H, K-E>>, inf: 0 finite, 1 infinite, 2 NaN
 EcOK(r) ==
+  /\ InspOK(r)
   /\ r.inf[1] = (IF K1(r) THEN 1 ELSE 0) /\ r.inf[3] = r.inf[1] /\ r.inf[2] = 0
   /\ r.inf[4] = (IF K1(r) \/ A1(r) THEN 1 ELSE 0)
   /\ r.inf[5] = (IF A1(r) THEN 1 ELSE 0)
@@ -91,7 +98,12 @@ EiOK(r) ==
   LET div == K1(r) /\ r.past            \* the integrals of the first kind diverge at pi/2 when k2 = 1
       ok12(x) == Good(x, ETol)
       ok3(x) == GoodOrSkipped(x, E3Tol(r))
-  IN /\ ok12(r.r[2]) /\ GoodOrSkipped(r.tr[2], ETol) /\ GoodOrSkipped(r.red, ETol) /\ r.cl[2] = 0
+      \* cardinal points of the (sn, cn, dn) interface: cd[6 (j-1) + k], j = 1..4 for (sn, cn) = (0,1), (1,0), (0,-1), (-1,0),
+      \* k = 1..6 for F, E, D, Pi, G, H: the values 0, X_c, 2 X_c, -X_c; cdd: the periodic parts vanish there (absolute)
+      cardTol(i) == IF ((i - 1) % 6) < 3 THEN ETol ELSE E3Tol(r)
+  IN /\ InspOK(r)
+     /\ \A i \in DOMAIN r.cd : GoodOrSkipped(r.cd[i], cardTol(i)) /\ GoodOrSkipped(r.cdd[i], 2 * cardTol(i))
+     /\ ok12(r.r[2]) /\ GoodOrSkipped(r.tr[2], ETol) /\ GoodOrSkipped(r.red, ETol) /\ r.cl[2] = 0
      /\ (~div => GoodOrSkipped(r.r[1], ETol) /\ GoodOrSkipped(r.r[3], ETol) /\ r.cl[1] = 0 /\ r.cl[3] = 0)
      /\ (~div => ok3(r.r[4]) /\ ok3(r.r[5]) /\ ok3(r.r[6]))
      /\ (~K1(r) => GoodOrSkipped(r.tr[1], ETol) /\ GoodOrSkipped(r.tr[3], ETol)
@@ -108,6 +120,7 @@ EiOK(r) ==
 \* Einv, deltaEinv, am, sn/cn/dn.  An inverse function is judged by the smaller of its forward and backward errors.
 AmTol(r) == IF r.kp2e >= -10 /\ r.k2e <= 3 THEN 2 * ETol ELSE Coarse
 EjOK(r) ==
+  /\ InspOK(r)
   /\ r.iec = 0 /\ r.dec = 0
   /\ (Good(r.ieu, 2 * ETol) \/ Good(r.iep, 2 * ETol))
   /\ GoodOrSkipped(r.deu, 2 * ETol)
@@ -140,7 +153,10 @@ RcLatticeOK(r) ==
 \* lattice line of the Legendre family: the logged classes agree with the dyadic parameters
 ParFieldsOK(r) ==
   LET kp == <<r.par[1], r.par[2]>>  ap == <<r.par[3], r.par[4]>>
+      limbOK(d, i) == IF Dy0(d) THEN r.pin[i] = 0 /\ r.pin[i + 1] = 0 /\ r.pin[i + 2] = 0
+                      ELSE DyNear(<<1, r.pin[i], r.pin[i + 1], r.pin[i + 2]>>, 1, d[1], d[2], 0)
   IN /\ ExactComplement(kp) /\ ExactComplement(ap)
+     /\ limbOK(kp, 3) /\ limbOK(ap, 8)          \* the complements handed to the library are the lattice values, exactly
      /\ r.k2s = -DyCmp1(kp) /\ r.a2s = -DyCmp1(ap)
      /\ r.kp2e = (IF Dy0(kp) THEN -9999 ELSE DyLog(kp)) /\ r.ap2e = (IF Dy0(ap) THEN -9999 ELSE DyLog(ap))
 =============================================================================
